@@ -105,10 +105,117 @@ Proof. revert s. induction n as [|n IH]; intro s; [reflexivity|]. cbn. now rewri
 Lemma nth_map_snd (inds : list (list T * list T)) i : nth i (map snd inds) [] = snd (nth i inds (@nil T, @nil T)).
 Proof. exact (map_nth snd inds (@nil T, @nil T) i). Qed.
 
+Local Notation zero := (n_ofZ Op 0%Z).
+
+(* for l in range(L): val = a[l] - b[l]; dist += val * val *)
+Lemma sqdist_loop (a b : list T) L (F : nat -> T -> T) :
+  length a = L -> length b = L ->
+  (forall l acc, F l acc = n_add Op acc (n_mul Op (n_sub Op (nth l a zero) (nth l b zero)) (n_sub Op (nth l a zero) (nth l b zero)))) ->
+  for_ (seq 0 L) F zero = sqdist Op a b.
+Proof.
+  intros Ha Hb HF. unfold sqdist. rewrite (zip_nth_seq a b zero zero L Ha Hb).
+  unfold for_. generalize (seq 0 L) as xs. generalize zero at 1 4 as acc. intros acc xs. revert acc.
+  induction xs as [|x xs IH]; intro acc; [reflexivity|]. cbn [map fold_left fst snd]. rewrite HF. apply IH.
+Qed.
+
+(* distances = [0.0] * N; for j in range(i+1, N): distances[j] = g j *)
+Lemma dist_row_loop (vals : list (list T)) N i (g : nat -> T) :
+  i < N -> (forall j, i < j < N -> g j = sqdist Op (nth i vals []) (nth j vals [])) ->
+  for_ (seq (S i) (N - S i)) (fun j d => set_nth d j (g j)) (repeat zero N) = dist_row Op vals N i.
+Proof.
+  intros Hi Hg.
+  destruct (for_set_range_spec g zero (N - S i) (S i) (repeat zero N)) as [L Hn]; [rewrite repeat_length; lia|].
+  rewrite repeat_length in L.
+  apply (nth_ext _ _ zero zero); [unfold dist_row; now rewrite L, tab_length|].
+  intros j Hj. rewrite L in Hj. rewrite Hn. unfold dist_row. rewrite nth_tab by exact Hj.
+  destruct (Nat.ltb_spec i j) as [Lt|Ge].
+  - destruct (Nat.leb_spec (S i) j); [|lia]. destruct (Nat.ltb_spec j (S i + (N - S i))); [|lia]. cbn [andb]. apply Hg. lia.
+  - destruct (Nat.leb_spec (S i) j); [lia|]. cbn [andb]. apply nth_repeat.
+Qed.
+
+Lemma nth_map_fst (inds : list (list T * list T)) i : nth i (map fst inds) [] = fst (nth i inds (@nil T, @nil T)).
+Proof. exact (map_nth fst inds (@nil T, @nil T) i). Qed.
+
+Lemma skipn_nth_cons {A} (l : list A) a d : a < length l -> skipn a l = nth a l d :: skipn (S a) l.
+Proof.
+  revert l. induction a as [|a IH]; intros l H; destruct l as [|x r]; cbn in H; try lia; [reflexivity|].
+  cbn [skipn nth]. apply IH. lia.
+Qed.
+
+(* the loop over i of the "archive too small" branch, generic in the body: it only has to select the k-th distance
+   of row i with the shared draw list and add the density to fits[i] *)
+Lemma fill_loop (vals : list (list T)) N (fits : list nat)
+      (BODY : nat -> list (pynum T) * list Z -> list (pynum T) * list Z) :
+  length fits = N ->
+  (forall i st ds, i < N -> length st = N ->
+     BODY i (st, ds) = let '(kth, d1) := rand_select Op (S N) (dist_row Op vals N i) 0%Z (Z.of_nat N - 1)%Z (rank_of N) ds in
+                       (set_nth st i (padd Op (nth i st (PI 0)) (PF (density Op kth))), d1)) ->
+  forall n a pre ds, length pre = a -> a + n <= N ->
+    for_ (seq a n) BODY (pre ++ map PI (skipn a fits), ds)
+    = let '(keys, d) := fill_keys Op vals N (seq a n) fits ds in (pre ++ map PF keys ++ map PI (skipn (a + n) fits), d).
+Proof.
+  intros Lf HB. induction n as [|n IH]; intros a pre ds La Han.
+  - cbn. now rewrite Nat.add_0_r.
+  - cbn [seq]. unfold for_ in *. cbn [fold_left fill_keys].
+    rewrite HB; [|lia|rewrite app_length, map_length, skipn_length; lia].
+    destruct (rand_select Op (S N) (dist_row Op vals N a) 0 (Z.of_nat N - 1) (rank_of N) ds) as [kth d1].
+    rewrite (skipn_nth_cons fits a 0) by lia. cbn [map].
+    rewrite app_nth2 by lia. rewrite La, Nat.sub_diag. cbn [nth padd pn_val].
+    rewrite (set_nth_app_mid pre _ _ _ a La).
+    set (key := n_add Op (n_ofZ Op (Z.of_nat (nth a fits 0))) (density Op kth)).
+    change (pre ++ PF key :: map PI (skipn (S a) fits)) with (pre ++ [PF key] ++ map PI (skipn (S a) fits)).
+    rewrite app_assoc. rewrite (IH (S a) (pre ++ [PF key]) d1); [|rewrite app_length; cbn; lia|lia].
+    destruct (fill_keys Op vals N (seq (S a) n) fits d1) as [ks d2]. cbn [map app].
+    rewrite <- app_assoc. cbn [app]. replace (S a + n) with (a + S n) by lia. reflexivity.
+Qed.
+
 (* the two archive branches: regenerated units or aliases of the model's branch functions *)
-Theorem gen_selSPEA2_fill_eq inds k N L K fits chosen ds :
+(* the two archive branches: regenerated units or aliases of the model's branch functions *)
+Theorem gen_selSPEA2_fill_eq (inds : list (list T * list T)) k N L K fits chosen ds :
+  N = length inds -> K = rank_of N -> length fits = N -> (forall ind, In ind inds -> length (fst ind) = L) ->
+  length chosen < k ->
   gen_selSPEA2_fill Op inds k N L K fits chosen ds = fill_branch Op (map fst inds) N k fits chosen ds.
-Proof. unfold gen_selSPEA2_fill. reflexivity. Qed.
+Proof.
+  intros HN HK Lf HL Hk.
+  first [ solve [unfold gen_selSPEA2_fill; reflexivity] | idtac "gen_selSPEA2_fill: regenerated";
+  unfold gen_selSPEA2_fill, fill_branch; cbv zeta;
+  (* the loop over i: k-th distance of row i, density added to fits[i] *)
+  match goal with |- context [for_ (seq 0 N) ?F (map PI fits, ds)] =>
+    assert (P : for_ (seq 0 N) F (map PI fits, ds)
+                = let '(keys, d) := fill_keys Op (map fst inds) N (seq 0 N) fits ds in (map PF keys, d));
+    [ rewrite (fill_loop (map fst inds) N fits _ Lf) with (pre := []) (a := 0); [| |reflexivity|lia];
+      [ cbn [app plus]; destruct (fill_keys Op (map fst inds) N (seq 0 N) fits ds) as [keys d];
+        rewrite skipn_all2 by lia; cbn [map]; now rewrite app_nil_r
+      | intros i st ds' Hi Ls; cbv beta iota zeta; rewrite ?Nat.add_1_r;
+        match goal with |- context [for_ (seq (S i) (N - S i)) (fun j d => set_nth d j (@?g j)) (repeat zero N)] =>
+          rewrite (dist_row_loop (map fst inds) N i g Hi) end;
+        [ unfold dist_row at 1; rewrite tab_length; rewrite gen_randomizedSelect_eq; subst K;
+          destruct (rand_select Op (S N) (dist_row Op (map fst inds) N i) 0 (Z.of_nat N - 1) (rank_of N) ds') as [kth d1];
+          reflexivity
+        | intros j Hj; cbv beta; rewrite !nth_map_fst;
+          apply (sqdist_loop (fst (nth i inds (@nil T, @nil T))) (fst (nth j inds (@nil T, @nil T))) L);
+          [ apply HL, nth_In; lia | apply HL, nth_In; lia | intros; reflexivity ] ] ]
+    | rewrite P; clear P ] end;
+  pose proof (fill_keys_length Op (map fst inds) N fits (seq 0 N) ds) as LK;
+  destruct (fill_keys Op (map fst inds) N (seq 0 N) fits ds) as [keys d]; cbn [fst] in LK; rewrite seq_length in LK;
+  f_equal; f_equal;
+  (* the (fits[i], i) tuples of the individuals not yet chosen, sorted; the first k - len(chosen) *)
+  unfold py_firstn; destruct (Z.ltb_spec (Z.of_nat k - Z.of_nat (length chosen)) 0); [lia|];
+  replace (Z.to_nat (Z.of_nat k - Z.of_nat (length chosen))) with (k - length chosen) by lia;
+  match goal with |- context [sort_pn Op ?l] => set (l1 := l) end;
+  transitivity (map snd (firstn (k - length chosen) (map (pn_conv Op) (sort_pn Op l1))));
+  [ rewrite firstn_map, map_map; apply map_ext; intros [a b]; reflexivity | ];
+  rewrite sort_pn_conv; f_equal; f_equal; f_equal;
+  rewrite (zip_nth_seq keys (seq 0 N) zero 0 N LK (seq_length _ _)), filter_map_comm; cbn [snd];
+  unfold l1; rewrite map_map;
+  assert (Fe : filter (fun x : nat => negb (memb (nth x (seq 0 N) 0) chosen)) (seq 0 N)
+               = filter (fun x_ : nat => negb (memb x_ chosen)) (seq 0 N))
+    by (apply filter_ext_in; intros x Hx; apply in_seq in Hx; rewrite seq_nth by lia; reflexivity);
+  rewrite Fe; apply map_ext_in; intros x Hx; apply filter_In in Hx; destruct Hx as [Hx _]; apply in_seq in Hx;
+  unfold pn_conv; cbn [fst snd]; rewrite seq_nth by lia; cbn [plus]; f_equal;
+  rewrite (nth_indep _ (PI 0) (PF zero)) by (rewrite map_length; lia);
+  rewrite (map_nth PF keys zero x); reflexivity ].
+Qed.
 
 Theorem gen_selSPEA2_trunc_eq inds k L chosen :
   gen_selSPEA2_trunc Op inds k L chosen = trunc_branch Op (map fst inds) k chosen.
@@ -157,7 +264,7 @@ Ltac spea2_phase2 N S_ D LD :=
     rewrite P2; clear P2
   end.
 
-Ltac spea2_main inds :=
+Ltac spea2_main inds k Hsame :=
   let N := fresh "N" in let w := fresh "w" in let LS := fresh "LS" in let LD := fresh "LD" in
   let S_ := fresh "S_" in let D := fresh "D" in
   unfold gen_selSPEA2, spea2; cbv zeta; rewrite map_length;
@@ -172,13 +279,26 @@ Ltac spea2_main inds :=
       (unfold nd_indices; replace (length (raw_fits S_ D)) with N by (unfold raw_fits; now rewrite map_length);
        apply filter_ext; intro; reflexivity);
     rewrite P3; clear P3 end;
-  rewrite ?pair_eta, ?gen_selSPEA2_fill_eq, ?gen_selSPEA2_trunc_eq;
-  repeat match goal with |- context [(?a <? ?b)%nat] => destruct (a <? b)%nat end; reflexivity.
+  rewrite ?pair_eta;
+  destruct (Nat.ltb_spec (length (nd_indices (raw_fits S_ D))) k);
+  [ rewrite gen_selSPEA2_fill_eq;
+    [ reflexivity | reflexivity | reflexivity | unfold raw_fits; rewrite map_length; exact LD
+    | let ind := fresh "ind" in let Hin := fresh "Hin" in
+      intros ind Hin; apply Hsame; [exact Hin|apply nth_In; destruct inds; [contradiction|cbn; lia]]
+    | assumption ]
+  | rewrite ?gen_selSPEA2_trunc_eq; reflexivity ].
+
+(* all individuals have the same number of fitness values (what `L = len(individuals[0].fitness.values)` stands for) *)
+Definition values_same_length (inds : list (list T * list T)) : Prop :=
+  forall a b, In a inds -> In b inds -> length (fst a) = length (fst b).
 
 Theorem gen_selSPEA2_eq (inds : list (list T * list T)) (k : nat) (ds : list Z) :
+  values_same_length inds ->
   gen_selSPEA2 Op inds k ds = spea2 Op (map fst inds) (map snd inds) k ds.
 Proof.
-  first [ solve [unfold gen_selSPEA2; reflexivity] | idtac "gen_selSPEA2: regenerated"; spea2_main inds ].
+  intro Hsame.
+  first [ solve [unfold gen_selSPEA2, gen_selSPEA2_fill; reflexivity]
+        | idtac "gen_selSPEA2: regenerated"; spea2_main inds k Hsame ].
 Qed.
 
 End Equiv.
@@ -319,33 +439,38 @@ Qed.
 (* C07_spea2_generic on the regenerated selSPEA2: individuals = (fitness.values, fitness.wvalues) *)
 Theorem gen_spea2_spec {T} (Op : numops T) :
   (forall x y, n_ltb Op x y = true -> n_ltb Op y x = false) ->
-  forall (inds : list (list T * list T)) k draws, dist_ok Op (map fst inds) -> (1 <= k <= length inds)%nat ->
+  forall (inds : list (list T * list T)) k draws, values_same_length inds -> dist_ok Op (map fst inds) ->
+  (1 <= k <= length inds)%nat ->
   let wvals := map snd inds in
   let r := fst (gen_selSPEA2 Op inds k draws) in
   length r = k /\ NoDup r /\ (forall i, In i r -> (i < length inds)%nat) /\
   ((length (nd_list Op wvals) <= k)%nat -> incl (nd_list Op wvals) r) /\
   ((k <= length (nd_list Op wvals))%nat -> incl r (nd_list Op wvals)).
 Proof.
-  intros H inds k draws Hd Hk. cbv zeta. rewrite gen_selSPEA2_eq.
+  intros H inds k draws Hs Hd Hk. cbv zeta. rewrite gen_selSPEA2_eq by exact Hs.
   assert (Hk' : (1 <= k <= length (map snd inds))%nat) by (now rewrite map_length).
   generalize (spea2_spec Op H (map fst inds) (map snd inds) k draws Hd Hk'). cbv zeta. rewrite map_length. exact (fun x => x).
 Qed.
 
 (* exact instance, finite fitness values: the distance hypothesis is discharged *)
 Theorem gen_spea2_exact : forall (vq : list (list Q)) (wvals : list (list qx)) k draws,
+  (forall a b, In a vq -> In b vq -> length a = length b) ->
   length vq = length wvals -> (1 <= k <= length wvals)%nat ->
   let r := fst (gen_selSPEA2 qx_ops (combine (map (map QF) vq) wvals) k draws) in
   length r = k /\ NoDup r /\ (forall i, In i r -> (i < length wvals)%nat) /\
   ((length (nd_list qx_ops wvals) <= k)%nat -> incl (nd_list qx_ops wvals) r) /\
   ((k <= length (nd_list qx_ops wvals))%nat -> incl r (nd_list qx_ops wvals)).
 Proof.
-  intros vq wvals k draws HL Hk. cbv zeta. rewrite gen_selSPEA2_eq.
+  intros vq wvals k draws Hs HL Hk. cbv zeta.
   assert (E1 : map fst (combine (map (map QF) vq) wvals) = map (map QF) vq).
-  { clear Hk. revert wvals HL. induction vq as [|v vq IH]; intros [|w ws] HL; cbn in *; try discriminate; [reflexivity|].
+  { clear Hk Hs. revert wvals HL. induction vq as [|v vq IH]; intros [|w ws] HL; cbn in *; try discriminate; [reflexivity|].
     f_equal. apply IH. congruence. }
   assert (E2 : map snd (combine (map (map QF) vq) wvals) = wvals).
-  { clear Hk E1. revert wvals HL. induction vq as [|v vq IH]; intros [|w ws] HL; cbn in *; try discriminate; [reflexivity|].
+  { clear Hk E1 Hs. revert wvals HL. induction vq as [|v vq IH]; intros [|w ws] HL; cbn in *; try discriminate; [reflexivity|].
     f_equal. apply IH. congruence. }
+  rewrite gen_selSPEA2_eq.
+  2: { intros a b Ha Hb. apply (in_map fst) in Ha, Hb. rewrite E1 in Ha, Hb.
+       apply in_map_iff in Ha, Hb. destruct Ha as [a' [<- Ha]], Hb as [b' [<- Hb]]. rewrite !map_length. now apply Hs. }
   rewrite E1, E2.
   exact (spea2_spec qx_ops qx_ltb_asym (map (map QF) vq) wvals k draws (dist_ok_qx vq) Hk).
 Qed.
@@ -387,7 +512,7 @@ Theorem source_is_model :
      gen_randomizedPartition Op arr b e ds = let '(r, ds') := randint b e ds in (rand_partition Op arr b e r, ds')) /\
   (forall {T} (Op : numops T) fuel arr b e i ds,
      gen_randomizedSelect Op fuel arr b e i ds = rand_select Op fuel arr b e i ds) /\
-  (forall {T} (Op : numops T) inds k ds,
+  (forall {T} (Op : numops T) inds k ds, values_same_length inds ->
      gen_selSPEA2 Op inds k ds = spea2 Op (map fst inds) (map snd inds) k ds) /\
   (forall {T} (Op : numops T) nobj p sc, 1 <= nobj ->
      gen_uniform_reference_points Op (Z.of_nat nobj) (Z.of_nat p) sc = ref_points Op nobj p sc).
@@ -396,6 +521,6 @@ Proof.
   - apply gen_partition_eq.
   - apply gen_randomizedPartition_eq.
   - apply gen_randomizedSelect_eq.
-  - apply gen_selSPEA2_eq.
+  - now apply gen_selSPEA2_eq.
   - now apply gen_uniform_reference_points_eq.
 Qed.
